@@ -329,6 +329,8 @@ EXDOC = ("# Stew for 2\r\n\r\nMix {4} eggs,\r\n    then rest.\r\n\r\n  ```recipe
          "      w = boil(z)\r\n\r\n~~~~new-recipe extra\r\nv = 3 eggs\r\n~~~\r\n~~~~\r\nDone.\r\n")   # the example of Props/C19d.lean
 
 CORNERS = [
+    # list markers with non-ASCII decimal digits (marko's \d is Unicode): outside D, the model must say so
+    "\u0661. a\n\n       code\n", "\uff11. a\n\n       code\n", "\u0663) x\n\n    y = 1 egg\n",
     EXDOC, "```RECIPE\nx\n```\n```recipe\ny\n```\n~~~new\\-recipe\nz\n~~~\n    w\n",
     "", "\n", " ", "    ", "    \n", "\r", "\r\n", "\r\r\n", "﻿", "```", "~~~", "```\n", "```recipe", "```recipe\n```", "```recipe\n```\n",
     "    x", "    x\n", "    x\n    ", "    x\n      ", "    x\n  ", "    x\n\n\n", "    x\n\n    y\n", "    x\n \n    y\n", "    x\n      \n    y\n",
